@@ -91,6 +91,12 @@ def templates(rng):
     T.append(("trace-through-functions", "local f(x) = g(x) + 1, g(x) = h(x) * 2, h(x) = { a: x.%s }.a; f({ %s: 1 })" % (miss, ns[0]), None))
     T.append(("stack-limit", "local r(n) = 1 + r(n + 1); r(0)", None))
     T.append(("stack-limit-object", "local o = { a: self.b, b: self.c, c: self.a }; o.a", None))
+    # programs whose recursion ends within a few frames of the limit (200 in these jobs): whether they give a value or a
+    # stack overflow must not depend on how many earlier evaluations on this thread were cut off by the limit
+    k = rng.randrange(170, 200)
+    T.append(("near-stack-limit", "local f(n) = if n == 0 then 0 else 1 + f(n - 1); f(%d)" % k, None))
+    T.append(("near-stack-limit-object", "local o = { f(n): if n == 0 then 0 else 1 + self.f(n - 1) }; o.f(%d)" % (k - rng.randrange(0, 8)), None))
+    T.append(("near-stack-limit-map", "local f(n) = if n == 0 then 0 else std.map(function(x) f(x), [n - 1])[0] + 1; f(%d)" % (40 + rng.randrange(0, 30)), None))
     T.append(("type-error-message", "std.length(%s)" % rng.choice(["1", "null", "true"]), None))
     T.append(("format-error", "'%%(%s)s' %% %s" % (miss, obj), None))
     T.append(("native-missing", "std.native('%s')" % miss, None))
@@ -108,7 +114,9 @@ class Observer:
 
     @staticmethod
     def job(code, tla, state_id=None, ext=None):
-        j = {"op": "eval", "code": code, "err_detail": True, "manifest": {"fmt": "json"}, "max_stack": 200}
+        # no "max_stack": the worker's override is relative to the thread's current depth and would mask a depth counter
+        # that a previous evaluation left behind; the thread default (200 frames) is what an embedder gets
+        j = {"op": "eval", "code": code, "err_detail": True, "manifest": {"fmt": "json"}}
         if tla is not None:
             j["tla"] = tla
         if ext:
